@@ -56,10 +56,19 @@ pub fn neutral_headers(n: u8) -> Vec<(String, Vec<u8>)> {
         ("Content-Type", "application/octet-stream"),
         ("X-Pad", "0123456789abcdef0123456789abcdef0123456789abcdef0123456789abcdef"),
     ];
-    all.iter()
-        .take(n as usize % 5)
-        .map(|(k, v)| (k.to_string(), v.as_bytes().to_vec()))
-        .collect()
+    // 0..=4: the first n of the plain fields; 5..: fields that describe the content without changing how it is framed or
+    // delivered (codings the client does not decode are passed through; a media type is only a label)
+    let set: Vec<(&str, &str)> = match n % 12 {
+        k @ 0..=4 => all.iter().take(k as usize).copied().collect(),
+        5 => vec![("Content-Encoding", "identity")],
+        6 => vec![("Content-Encoding", "br")],
+        7 => vec![("Content-Type", "application/gzip")],
+        8 => vec![("Content-Encoding", "zstd"), ("Content-Type", "application/zstd")],
+        9 => vec![("Content-Encoding", "x-unknown"), all[0]],
+        10 => vec![("Vary", "Accept-Encoding"), ("Content-Encoding", "identity")],
+        _ => vec![("Content-Language", "en"), ("Content-Encoding", "compress")],
+    };
+    set.into_iter().map(|(k, v)| (k.to_string(), v.as_bytes().to_vec())).collect()
 }
 
 /// The response is intact but the transport reports transient errors (a read timeout, an interrupted call) in between and
@@ -188,7 +197,7 @@ segmentation x caller read plan), run through send() on a scripted transport; no
             seg(),
             gen::read_plan(),
             proptest::collection::vec(gen::read_size(), 0..4),
-            0u8..5,
+            0u8..12,
             (prop_oneof![5 => Just(vec![]), 1 => proptest::collection::vec((any::<u16>(), 0u8..3), 1..3)], 0u8..STATUSES.len() as u8),
         )
             .prop_map(|(payload, framing, hdr_style, trailing, seg, reads, after_eof, neutral_headers, (hiccups, status))| Case {
@@ -234,6 +243,7 @@ segmentation x caller read plan), run through send() on a scripted transport; no
             Err(e) => return Outcome::fail("C01:send-failed", format!("send() failed on a well-formed response: {e:?}")),
         };
         ensure!(resp.status().as_u16() == status, "C01:status", "status {}", resp.status());
+        ctx.label_if(case.neutral_headers % 12 >= 5, "describing-headers(unknown coding / media type)");
         ctx.label_if(status / 100 == 3, "status-3xx-not-followed");
 
         let consumed = consume(resp, &case.reads, &case.after_eof, payload.len());
